@@ -116,6 +116,29 @@ def scheduling(n: int, w: int, k1: int, k2: int) -> bool:
     return fin(ok)
 
 
+def sibling_independence(n: int, i: int, k: int) -> bool:
+    """BaseCodemod.apply on a project of n <= 3 files versus on the project reduced to its i-th file alone: file i
+    ends with the same bytes and the same changeset (the per-file pipeline does not look at sibling files), for
+    any task order.
+    pre: 1 <= n <= 3 and 0 <= i < n
+    post: _
+    """
+    cs_all, bytes_all, _ = _run_sched(n, 2, perm(k))
+    # the same file alone (same relative name and content)
+    files = [FakePath(skel.SRC_TEXT.encode() + b"# f%d\n" % i, rel="f%d.py" % i)]
+    with NoTracing():
+        ctx = CodemodExecutionContext(Path("/d"), False, False, None, None, None, [], [], {}, 2)
+    ctx.__dict__["find_and_fix_paths"] = list(files)
+    cm = _Codemod(metadata=Metadata(name="stub", summary="s", review_guidance=ReviewGuidance.MERGE_WITHOUT_REVIEW, description="d"), transformer=LibcstTransformerPipeline(T))
+    bc.ThreadPoolExecutor = SchedExecutor
+    SchedExecutor.ORDER = [0, 1, 2]
+    cm.apply(ctx)
+    cs_one = [(c.path, c.diff) for c in ctx.get_changesets(cm.id)]
+    ok = len(cs_one) == 1 and cs_one[0] in cs_all and [c for c in cs_all if c[0] == "f%d.py" % i] == cs_one
+    ok = ok and files[0].content == bytes_all[i]
+    return fin(ok)
+
+
 # ------------------------------------------------------------------ registry loading order
 class _EP:
     def __init__(self, name, ids):
@@ -258,6 +281,7 @@ def warmup():
         scheduling(3, 2, 0, 5)
     except Exception:
         pass
+    sibling_independence(3, 1, 4)
     registry_order(0, 3, 1, 2)
     match_files_order(4, 3)
     manifest_discovery_order(0, 5)
@@ -289,9 +313,10 @@ SPEC = {
         "preemption inside _process_file is not modelled",
     ],
     "stubs": ["ThreadPoolExecutor (SchedExecutor)", "set() in registry (permuting iteration)", "entry_points", "Path.rglob in base_parser", "file (FakePath)", "logger"],
-    "outside": ["real thread interleavings inside a task", "sibling-file independence of individual codemods", "PYTHONHASHSEED effects outside registry loading"],
+    "outside": ["real thread interleavings inside a task", "sibling-file independence of individual codemods' transformers (the framework part is decided by sibling_independence)", "PYTHONHASHSEED effects outside registry loading"],
     "xh": [
         Xh("scheduling", 400, 900),
+        Xh("sibling_independence", 300, 600),
         Xh("registry_order", 200, 400),
         Xh("match_files_order", 120, 300),
         Xh("manifest_discovery_order", 120, 300),
